@@ -478,3 +478,44 @@ Proof.
   - destruct (mac_of_verified F c' (hJ h) {| aA := t'; aS := evaluate polys x; aC := hC h; aD := hD h; aJ := hJ h |} rest eq_refl HJl Hr) as [_ HJ']. rewrite <- HJ. exact HJ'.
 Qed.
 End AF2.
+
+Section AF3.
+Variable F : list N -> list N.
+(* the mechanism of the known finding C05/empty-sharing: with empty C and D the outcome of recovery does not
+   depend on the interpolated key at all *)
+Theorem arecover_empty_key_unbound (s : ashare) rest keyb :
+  aC s = [] -> aD s = [] -> Shamir.recover (aA s) (map aS (s :: rest)) = Ok keyb ->
+  (Params.adss_key_take <= length keyb)%nat ->
+  arecover F (s :: rest) =
+    if verify F {| cA := aA s; cM := []; cR := []; cT := None |} (aJ s)
+    then Ok {| cA := aA s; cM := []; cR := []; cT := None |} else Err.
+Proof.
+  intros HC HD Hk Hl. rewrite arecover_unfold, Hk. cbn [obind].
+  replace (length keyb <? Params.adss_key_take)%nat with false by (symmetry; apply Nat.ltb_ge; exact Hl).
+  rewrite slice_to_ok by exact Hl. cbn [obind]. cbv zeta. rewrite HC, HD.
+  unfold recv_enc. cbn [mapacc]. reflexivity.
+Qed.
+End AF3.
+
+Section AF4.
+Variable F : list N -> list N.
+(* the authentication tag alone binds the result: ANY first share that carries the tag of the sharing c -
+   whatever its threshold, point, value, C and D - recovers c or exhibits a MAC coincidence *)
+Theorem honest_tag_binds (c : commune) (s : ashare) rest c' :
+  aJ s = snd (send_mac F (transcript_of F c) Params.mac_length) ->
+  arecover F (s :: rest) = Ok c' -> c' = c \/ MacCoincidence F c c'.
+Proof.
+  intros HJ Hr.
+  assert (HJl : length (aJ s) = Params.mac_length) by (rewrite HJ; apply length_send_mac).
+  destruct (mac_of_verified F c' (aJ s) s rest eq_refl HJl Hr) as [HT' HJ'].
+  assert (Hdec : {commune_key c = commune_key c'} + {commune_key c <> commune_key c'}).
+  { destruct (cT c) as [T|] eqn:ET.
+    - right. unfold commune_key. rewrite ET, HT'. intro H. discriminate.
+    - destruct (N.eq_dec (cA c) (cA c')) as [EA|EA]; [|right; unfold commune_key; intro H; apply EA; congruence].
+      destruct (list_eq_dec N.eq_dec (cM c) (cM c')) as [EM|EM]; [|right; unfold commune_key; intro H; apply EM; congruence].
+      destruct (list_eq_dec N.eq_dec (cR c) (cR c')) as [ER|ER]; [|right; unfold commune_key; intro H; apply ER; congruence].
+      left. unfold commune_key. rewrite ET, HT', EA, EM, ER. reflexivity. }
+  destruct Hdec as [E|E]; [left; symmetry; apply commune_key_inj; exact E|].
+  right. split; [exact E|]. rewrite <- HJ. exact HJ'.
+Qed.
+End AF4.
